@@ -64,7 +64,10 @@ Section Norm.
   (* a path: non-empty components, each an identifier that is not a reserved word *)
   Definition path_ok (ty : str) : bool := forallb can_ident (split_path ty).
   Definition str_ok (s : str) : bool := valid_utf8 s.
-  Definition uid_ok (u : uid) : bool := path_ok (fst u) && str_ok (snd u).
+  (* Go strings are byte strings: the model's integers must be bytes (a negative "byte" would be read as an ASCII rune) *)
+  Definition byte_str (s : str) : bool := forallb (fun b => (0 <=? b) && (b <? 256)) s.
+  Definition str_ok2 (s : str) : bool := byte_str s && str_ok s.
+  Definition uid_ok (u : uid) : bool := path_ok (fst u) && str_ok2 (snd u).
   Definition distinct_keys {A} (kvs : list (str * A)) : bool :=
     (fix go (l : list (str * A)) (seen : list str) : bool :=
        match l with [] => true | (k, _) :: r => negb (existsb (str_eqb k) seen) && go r (k :: seen) end) kvs [].
@@ -77,10 +80,10 @@ Section Norm.
     match v with
     | VBool _ => true
     | VLong z => in64b z
-    | VString s => str_ok s
-    | VEntity ty id => path_ok ty && str_ok id
+    | VString s => str_ok2 s
+    | VEntity ty id => path_ok ty && str_ok2 id
     | VSet l => order_ok l && (fix go (l : list value) : bool := match l with [] => true | x :: r => value_ok x && go r end) l
-    | VRecord kvs => distinct_keys kvs && forallb (fun kv : str * value => str_ok (fst kv)) kvs
+    | VRecord kvs => distinct_keys kvs && forallb (fun kv : str * value => str_ok2 (fst kv)) kvs
                      && (fix go (l : list (str * value)) : bool := match l with [] => true | (_, x) :: r => value_ok x && go r end) kvs
     | VDecimal _ | VDatetime _ | VDuration _ | VIP _ _ _ => true
     end.
@@ -98,6 +101,8 @@ Section Norm.
     | (w, l) :: r => str_ok l && (match l, r with [], _ :: _ => negb w && false | _, _ => true end) && pat_tail_ok r
     end.
 
+  Definition pat_ok2 (p : pattern) : bool := forallb (fun c : pcomp => byte_str (snd c)) p && pat_ok p.
+
   Definition builtin_method (name : str) : bool :=
     existsb (fun s => str_eqb (s_of s) name) ["contains"; "containsAll"; "containsAny"; "hasTag"; "getTag"; "isEmpty"]%string.
 
@@ -110,13 +115,13 @@ Section Norm.
     | EAnd a b | EOr a b | EAdd a b | ESub a b | EMul a b | EEq a b | ENe a b | ELt a b | ELe a b | EGt a b | EGe a b | EIn a b
     | EContains a b | EContainsAll a b | EContainsAny a b | EGetTag a b | EHasTag a b => expr_ok a && expr_ok b
     | ENot a | ENeg a | EIsEmpty a => expr_ok a
-    | EAccess a k | EHas a k => expr_ok a && str_ok k
-    | ELike a p => expr_ok a && pat_ok p
+    | EAccess a k | EHas a k => expr_ok a && str_ok2 k
+    | ELike a p => expr_ok a && pat_ok2 p
     | EIs a ty => expr_ok a && path_ok ty
     | EIsIn a ty b => expr_ok a && path_ok ty && expr_ok b
     | EIf c t f => expr_ok c && expr_ok t && expr_ok f
     | ESet es => go es
-    | ERecord kvs => distinct_keys kvs && forallb (fun kv : str * expr => str_ok (fst kv)) kvs && gokv kvs
+    | ERecord kvs => distinct_keys kvs && forallb (fun kv : str * expr => str_ok2 (fst kv)) kvs && gokv kvs
     | ECall n args =>
         match ext_lookup n with
         | Some (_, true) => negb (builtin_method n) && can_ident n && (match args with [] => false | _ => true end) && go args
@@ -134,7 +139,7 @@ Section Norm.
   Definition principal_scope_ok (s : scope) : bool := match s with SInSet _ => false | _ => scope_ok s end.
 
   Definition annots_ok (a : list (str * str)) : bool :=
-    distinct_keys a && forallb (fun kv : str * str => (can_ident (fst kv) || is_reserved (fst kv)) && str_ok (snd kv)) a.
+    distinct_keys a && forallb (fun kv : str * str => (can_ident (fst kv) || is_reserved (fst kv)) && str_ok2 (snd kv)) a.
 
   Definition policy_ok (annots : list (str * str)) (p : policy) : bool :=
     annots_ok annots && principal_scope_ok (p_principal p) && action_scope_ok (p_action p) && principal_scope_ok (p_resource p)
